@@ -1457,3 +1457,46 @@ Section Sequences.
     rewrite slot_get_set_same. reflexivity.
   Qed.
 End Sequences.
+
+(* ================================================================== *)
+(* one string decoded several times                                     *)
+
+Lemma run_fresh_returns x ops : forall store, Forall (eq x) (snd (run_fresh x ops store)).
+Proof.
+  induction ops as [|[|i m] r IH]; intro store; simpl.
+  - constructor.
+  - specialize (IH (store ++ [x])). destruct (run_fresh x r (store ++ [x])) as [st rets]. simpl in *.
+    constructor; [reflexivity|exact IH].
+  - apply IH.
+Qed.
+
+Lemma run_fresh_count x ops : forall store,
+  List.length (snd (run_fresh x ops store))
+  = List.length (filter (fun o => match o with RDecode => true | _ => false end) ops).
+Proof.
+  induction ops as [|[|i m] r IH]; intro store; simpl.
+  - reflexivity.
+  - specialize (IH (store ++ [x])). destruct (run_fresh x r (store ++ [x])) as [st rets]. simpl in *.
+    rewrite IH; reflexivity.
+  - apply IH.
+Qed.
+
+(* what the earlier results went through in the caller's hands does not matter *)
+Lemma run_fresh_store_irrelevant x ops : forall st st', snd (run_fresh x ops st) = snd (run_fresh x ops st').
+Proof.
+  induction ops as [|[|i m] r IH]; intros st st'; simpl.
+  - reflexivity.
+  - specialize (IH (st ++ [x]) (st' ++ [x])).
+    destruct (run_fresh x r (st ++ [x])) as [s1 r1], (run_fresh x r (st' ++ [x])) as [s2 r2]. simpl in *.
+    rewrite IH; reflexivity.
+  - apply IH.
+Qed.
+
+(* a decoder that keeps and shares the decoded object does not have the property *)
+Lemma run_cached_refuted :
+  exists x ops, ~ Forall (eq x) (run_cached x ops).
+Proof.
+  exists (mkDres 0 [VL [AStr "a"]] [("comm"%string, VA ANone)]),
+         [RDecode; RMutate 0 (MKwDel "comm"); RDecode].
+  simpl. intro H. inversion H as [|? ? _ H2]; subst. inversion H2 as [|? ? E _]; subst. discriminate E.
+Qed.
